@@ -48,4 +48,4 @@ def perm_sign(perm: np.ndarray | list[int]) -> float:
              -1 if the permutation is of odd length.
 
     """
-    return linalg.det(np.eye(len(perm))[:, np.array(perm) - 1])
+    return linalg.det(np.eye(len(perm))[:, np.array(perm, dtype=int) - 1])
